@@ -21,6 +21,9 @@ pub struct Case {
     pub sig: String,
     /// what was done to a valid signature (class of the case)
     pub label: String,
+    /// the public key object holds the point in the Jacobian representation with this Z (hex); None = affine
+    #[serde(default)]
+    pub lambda: Option<String>,
 }
 
 pub fn eval(ctx: &Ctx, c: &Case) {
@@ -33,7 +36,10 @@ pub fn eval(ctx: &Ctx, c: &Case) {
     let pk_ref = sm2::decode_point(&pkb).expect("case public key is valid");
     let accept = sm2::verify_msg(&pk_ref, &id_bytes, &msg, &sig);
     ctx.trace();
-    let pk = public_key(&pk_ref);
+    let pk = match &c.lambda {
+        None => public_key(&pk_ref),
+        Some(l) => gm_sm2::key::Sm2PublicKey { point: lib_point(&pk_ref, &hb(l)) },
+    };
     let ids = c.id.as_ref().map(|s| static_id(s));
     ctx.call();
     let r = guard(|| pk.verify(ids, &msg, &sig));
@@ -64,7 +70,7 @@ pub fn run(ctx: &Arc<Ctx>) {
     refmodels::selftest::run(&["sm3", "sm2"]).unwrap_or_else(|e| ctx.machinery_error(format!("reference self-test failed: {}", e)));
     let n = sm2::params().n.clone();
     let p = sm2::params().p.clone();
-    ctx.set_rule("for each base signature (quick 12, thorough 60: keys x nonces x IDs x messages from the C03 alphabets, made by the reference signer): all 512 single-bit flips of r||s; r,s substituted by {0,1,n-1,n,n+1,2^256-1}, s=n-r, swapped; message bit flipped / byte appended / truncated; ID changed; key replaced by another key and by -P; every signature length 0..=130 as prefix/extension and constant fills; plus the product RxS of a 12-element boundary alphabet; pre-searched signatures with r or s below 2^224 and their r+n / s+n aliases. Oracle: the reference verifier (and 'exactly 64 bytes'); library must return Err whenever it rejects — never Ok, never a panic — and Ok when it accepts.");
+    ctx.set_rule("for each base signature (quick 12, thorough 60: keys x nonces x IDs x messages from the C03 alphabets, made by the reference signer): all 512 single-bit flips of r||s; r,s substituted by {0,1,n-1,n,n+1,2^256-1}, s=n-r, swapped; (r+delta, s') completed with the private key so that the verification point is unchanged, delta in {+-1, +-(p-n), +-(2^256-n), +-(2^256-p)}; the public key held as a Jacobian key object (Z in {2, p-1, seeded}); message bit flipped / byte appended / truncated; ID changed; key replaced by another key and by -P; every signature length 0..=130 as prefix/extension and constant fills; plus the product RxS of a 12-element boundary alphabet; pre-searched signatures with r or s below 2^224 and their r+n / s+n aliases. Oracle: the reference verifier (and 'exactly 64 bytes'); library must return Err whenever it rejects — never Ok, never a panic — and Ok when it accepts.");
     let ds = scalar_alphabet(&n, ctx.seed, "c04d", 2);
     let ks = scalar_alphabet(&n, ctx.seed, "c04k", 1);
     let nbase = ctx.tier.pick(12usize, 60);
@@ -88,9 +94,42 @@ pub fn run(ctx: &Arc<Ctx>) {
             None => sm2::sign_with_k(d, &e, &(k + 1u32)).expect("base signature"),
         };
         let pkh = hex::encode(sm2::encode_point(&pk, false));
-        let mk = |sig: String, msg: &[u8], id: &Option<String>, pkh: &str, label: &str| Case { pk: pkh.to_string(), id: id.clone(), msg: hex::encode(msg), sig, label: label.to_string() };
+        let mk = |sig: String, msg: &[u8], id: &Option<String>, pkh: &str, label: &str| Case { pk: pkh.to_string(), id: id.clone(), msg: hex::encode(msg), sig, label: label.to_string(), lambda: None };
         let valid = sig_bytes(&r, &s);
         cases.push(mk(valid.clone(), &msg, &id, &pkh, "valid"));
+        // the same point held as a Jacobian key object (Z = 2, p - 1, seeded): valid accepted, altered refused
+        for lam in [BigUint::from(2u32), &p - 1u32, g.nonzero_below(&p)] {
+            let l = Some(hexbig(&lam));
+            let mut c = mk(valid.clone(), &msg, &id, &pkh, "valid");
+            c.lambda = l.clone();
+            cases.push(c);
+            let mut f = hex::decode(&valid).unwrap();
+            f[31] ^= 1;
+            let mut c = mk(hex::encode(&f), &msg, &id, &pkh, "bitflip-r/jacobian-key-object");
+            c.lambda = l.clone();
+            cases.push(c);
+            let mut m2 = msg.clone();
+            m2.push(0x80);
+            let mut c = mk(valid.clone(), &m2, &id, &pkh, "msg-extended/jacobian-key-object");
+            c.lambda = l;
+            cases.push(c);
+        }
+        // the right point with a shifted r: (r', s') with r' = r + delta and s' = (1+d)^-1 (k - r' d), so that
+        // [s']G + [r'+s']P = [k]G exactly as for the valid signature, but r' != (e + x1) mod n
+        {
+            let k_used = if sm2::sign_with_k(d, &e, k).is_some() { k.clone() } else { k + 1u32 };
+            let two256: BigUint = BigUint::one() << 256usize;
+            let one_plus_d_inv = (BigUint::one() + d).modpow(&(&n - 2u32), &n);
+            let deltas: Vec<(&str, BigUint)> = vec![("1", BigUint::one()), ("-1", &n - 1u32), ("p-n", &p - &n), ("n-p", &n - ((&p - &n) % &n)), ("2^256-n", (&two256 - &n) % &n), ("2^256-p", (&two256 - &p) % &n), ("-(2^256-n)", &n - ((&two256 - &n) % &n)), ("-(2^256-p)", &n - ((&two256 - &p) % &n))];
+            for (dn2, delta) in &deltas {
+                let r2 = (&r + delta) % &n;
+                let s2 = (&one_plus_d_inv * ((&k_used + &n - (&r2 * d) % &n) % &n)) % &n;
+                if r2.is_zero() || s2.is_zero() || ((&r2 + &s2) % &n).is_zero() {
+                    continue;
+                }
+                cases.push(mk(sig_bytes(&r2, &s2), &msg, &id, &pkh, &format!("right-point-shifted-r/delta={}", dn2)));
+            }
+        }
         // all single-bit flips
         let vb = hex::decode(&valid).unwrap();
         for bit in 0..512 {
@@ -192,7 +231,7 @@ pub fn run(ctx: &Arc<Ctx>) {
         let (pkh, msg) = (e["pub"].as_str().unwrap().to_string(), hex::decode(e["msg"].as_str().unwrap()).unwrap());
         let (r, s) = (hb(e["r"].as_str().unwrap()), hb(e["s"].as_str().unwrap()));
         let kind = e["kind"].as_str().unwrap();
-        let mk = |sig: String, label: &str| Case { pk: pkh.clone(), id: None, msg: hex::encode(&msg), sig, label: label.to_string() };
+        let mk = |sig: String, label: &str| Case { pk: pkh.clone(), id: None, msg: hex::encode(&msg), sig, label: label.to_string(), lambda: None };
         cases.push(mk(sig_bytes(&r, &s), "valid"));
         if r < two224 {
             cases.push(mk(sig_bytes(&(&r + &n), &s), "r+n-alias"));
@@ -214,7 +253,7 @@ pub fn run(ctx: &Arc<Ctx>) {
             let idb = id.as_ref().map(|s| s.as_bytes().to_vec()).unwrap_or_else(|| sm2::DEFAULT_ID.to_vec());
             let e = sm2::digest_e(&idb, &pk, &msg);
             let (r, s) = sm2::sign_with_k(d, &e, &ks[5].1).expect("sequence signature");
-            items.push(Case { pk: hex::encode(sm2::encode_point(&pk, false)), id: id.clone(), msg: hex::encode(&msg), sig: sig_bytes(&r, &s), label: "valid".into() });
+            items.push(Case { pk: hex::encode(sm2::encode_point(&pk, false)), id: id.clone(), msg: hex::encode(&msg), sig: sig_bytes(&r, &s), label: "valid".into(), lambda: None });
         }
         // the signature of item 0 presented under the ID of item 2 (same key) and under the key of item 1 (same ID)
         let mut cross1 = items[0].clone();
